@@ -28,6 +28,8 @@ type EvalCtx struct {
 	bound   map[string]Term // quantifier variables
 	wantAddr bool
 	fr0     *frame
+	lazyFn   *ssa.Function  // closure whose locals / parameters are unknowns (last-call rule)
+	oldBinds map[string]Val // bindings used inside old(...) in that mode
 }
 
 func (fe *FnExec) ctxFor(fr *frame, st *State) *EvalCtx {
@@ -175,6 +177,25 @@ func (c *EvalCtx) evalIdent(name string) Val {
 	if c.fr != nil {
 		if v, ok := c.localByName(name); ok {
 			return v
+		}
+	}
+	// locals / parameters of a closure evaluated from outside: unknowns
+	if c.lazyFn != nil {
+		for _, p := range c.lazyFn.Params {
+			if p.Name() == name {
+				v := c.fe.freshVal(p.Type(), "cb."+name)
+				c.binds[name] = v
+				return v
+			}
+		}
+		for _, b := range c.lazyFn.Blocks {
+			for _, in := range b.Instrs {
+				if a, ok := in.(*ssa.Alloc); ok && a.Comment == name {
+					v := c.fe.freshVal(a.Type().(*types.Pointer).Elem(), "cb."+name)
+					c.binds[name] = v
+					return v
+				}
+			}
 		}
 	}
 	// package scope
@@ -456,10 +477,54 @@ func (c *EvalCtx) evalCall(x *ast.CallExpr) Val {
 	args := x.Args
 	switch fname {
 	case "old":
+		if c.oldBinds != nil {
+			n := *c
+			n.binds = map[string]Val{}
+			for k, v := range c.binds {
+				n.binds[k] = v
+			}
+			for k, v := range c.oldBinds {
+				n.binds[k] = v
+			}
+			n.oldBinds = nil
+			if c.old != nil {
+				n.st = c.old
+			}
+			return n.eval(args[0])
+		}
 		if c.old == nil {
 			return c.eval(args[0])
 		}
 		return c.withState(c.old).eval(args[0])
+	case "cb_called", "cb_result":
+		// cb_called(f) / cb_result(f): last-call information of the closure passed as f (in a callee's contract)
+		if fv, ok := c.eval(args[0]).(FuncV); ok {
+			if cs := fe.cbInfo[fv.Fn]; cs != nil {
+				if fname == "cb_called" {
+					return BoolV{cs.called}
+				}
+				return cs.last
+			}
+		}
+		if fname == "cb_called" {
+			return BoolV{fe.fresh("cb.called", "Bool")}
+		}
+		return BoolV{fe.fresh("cb.result", "Bool")}
+	case "closure_called", "closure_result":
+		// closure_called(k) / closure_result(k): the same, for the k-th function literal of this function
+		k := 0
+		if bl, ok := args[0].(*ast.BasicLit); ok {
+			k, _ = strconv.Atoi(bl.Value)
+		}
+		if c.fr != nil && k < len(c.fr.fn.AnonFuncs) {
+			if cs := fe.cbInfo[c.fr.fn.AnonFuncs[k]]; cs != nil {
+				if fname == "closure_called" {
+					return BoolV{cs.called}
+				}
+				return cs.last
+			}
+		}
+		return c.fail("%s(%d): the closure has not been passed to a callee yet", fname, k)
 	case "cur":
 		// cur(x): the current value of local / parameter x (parameters otherwise denote their entry value)
 		if id, ok := args[0].(*ast.Ident); ok && c.fr != nil {
